@@ -40,6 +40,7 @@ func runC11(c *core.Ctx) {
 	c.Rule("R6", "at most one call per instance", 1)
 	c.Rule("R7", "ReplicationSet.Do: per-goroutine delay timers", 1)
 	c.Rule("R8", "DoUntilQuorum and the single-set case of DoMultiUntilQuorum… delegate to the analysed function", 2)
+	c.Rule("R10", "multi-set read: every worker reads its set, failures recorded once, successes appended in full, answer after Wait", 3)
 	c.Rule("R9", "result trackers: success / failure / inclusion predicates and thresholds", 8)
 	pkg := c.Prog.Pkg("ring")
 	fn := an.FindFunc(pkg, "DoUntilQuorumWithoutSuccessfulContextCancellation")
@@ -471,6 +472,7 @@ func runC11(c *core.Ctx) {
 	c11Legacy(c)
 	c11Entry(c)
 	c11Trackers(c)
+	c11Multi(c)
 }
 
 func c11Drain(c *core.Ctx, fn *an.Fn, resultsChan, remaining types.Object) {
@@ -689,6 +691,137 @@ func c11Entry(c *core.Ctx) {
 		}
 		c.Check(ok, "R8", "func=DoMultiUntilQuorumWithoutSuccessfulContextCancellation:single", fn.Pos(), fmt.Sprintf("with exactly one replication set the call is delegated unchanged to the analysed single-set function (returns: %v)", rcs), 3)
 	}
+}
+
+// c11Multi (R10): the multi-set variant. Every set's worker runs the analysed single-set read on the
+// workers' context (no path of the worker skips it), a failed set records its error, a successful set's
+// results are appended in full to the slice that is returned, and the function answers only after all
+// workers finished, with the recorded error when there is one.
+func c11Multi(c *core.Ctx) {
+	pkg := c.Prog.Pkg("ring")
+	fn := an.FindFunc(pkg, "doMultiUntilQuorumWithoutSuccessfulContextCancellation")
+	if fn == nil {
+		c.Miss("R10", "func=doMultiUntilQuorumWithoutSuccessfulContextCancellation", "not found")
+		return
+	}
+	c.Analysed(fn.String())
+	g := fn.Graph()
+	// the worker: a go statement inside the loop over the sets
+	var worker *an.Fn
+	var read an.Call
+	nRead := 0
+	for _, call := range fn.Calls(true) {
+		if call.Is("ring", "DoUntilQuorumWithoutSuccessfulContextCancellation") {
+			nRead++
+			read = call
+			worker = call.In
+		}
+	}
+	if nRead != 1 || worker == nil || worker == fn {
+		c.Undec("R10", "func=doMulti:worker", fn.Pos(), fmt.Sprintf("expected exactly one per-set call of the single-set function inside a worker closure, found %d", nRead))
+		return
+	}
+	wg := worker.Graph()
+	ex := wg.Exec(wg.EntryLoc(), []an.Loc{wg.Locate(read.Expr)}, func(ast.Expr, an.Store) an.Tri { return an.U }, an.ExecOpts{})
+	args := []string{}
+	for _, a := range read.Expr.Args {
+		args = append(args, worker.Canon(a))
+	}
+	setArg := len(args) == 5 && (args[1] == "λp1" || args[1] == "each(p1)")
+	c.Check(ex.Must[0] && setArg && strings.HasPrefix(args[0], "context.WithCancelCause(p0)"), "R10", "func=doMulti:worker", read.Expr.Pos(),
+		fmt.Sprintf("every path of a set's worker performs the quorum read of its own set on the workers' context (must=%v, args=%v)", ex.Must[0], args), ex.Paths)
+	// outcome of the read
+	RC := worker.Canon(read.Expr)
+	var errRec, app ast.Node
+	worker.InspectShallow(func(n ast.Node) bool {
+		switch x := n.(type) {
+		case *ast.CallExpr:
+			if s, ok := x.Fun.(*ast.SelectorExpr); ok && s.Sel.Name == "Do" && len(x.Args) == 1 {
+				if lit, ok := x.Args[0].(*ast.FuncLit); ok {
+					lf := worker.LitFn(lit)
+					if lf == nil {
+						lf = fn.LitFn(lit)
+					}
+					if lf != nil {
+						lf.InspectShallow(func(m ast.Node) bool {
+							if as, ok := m.(*ast.AssignStmt); ok && len(as.Rhs) == 1 && lf.Canon(as.Rhs[0]) == RC+"#1" {
+								errRec = x
+							}
+							return true
+						})
+					}
+				}
+			}
+		case *ast.AssignStmt:
+			if len(x.Rhs) == 1 && len(x.Lhs) == 1 {
+				if ap, ok := an.Unparen(x.Rhs[0]).(*ast.CallExpr); ok && an.ObjIs(an.Callee(worker.Info(), ap), "", "append") && ap.Ellipsis.IsValid() && len(ap.Args) == 2 &&
+					worker.ObjOf(ap.Args[0]) == worker.ObjOf(x.Lhs[0]) && worker.ObjOf(x.Lhs[0]) != nil && worker.Canon(ap.Args[1]) == RC+"#0" {
+					app = x
+				}
+			}
+		}
+		return true
+	})
+	if errRec == nil || app == nil {
+		c.Undec("R10", "func=doMulti:outcome", read.Expr.Pos(), fmt.Sprintf("result collection idiom not recognised: error recorded once=%v, results appended in full (R = append(R, setResults...))=%v", errRec != nil, app != nil))
+	} else {
+		t := an.Table{G: wg, From: wg.LocAfter(stmtOf(worker, read.Expr)), FreeUnknown: true, Atoms: []an.Atom{{Name: "ok", Values: []string{"T", "F"}}},
+			Binder: &an.Binder{Fn: worker, Eq: map[string]string{RC + "#1|nil": "ok"}}, Targets: []an.Loc{wg.Locate(errRec), wg.Locate(app)}, Names: []string{"record error", "append results"},
+			Want: func(r an.Row, i int) an.Tri { return an.FromBool((r["ok"] == "F") == (i == 0)) }}
+		res := t.Run()
+		resObj := worker.ObjOf(app.(*ast.AssignStmt).Lhs[0])
+		// the slice appended to is the one returned, and only after Wait
+		retOK, waitOK := false, true
+		waits := []an.Call{}
+		for _, call := range fn.Calls(false) {
+			if s, ok := call.Expr.Fun.(*ast.SelectorExpr); ok && s.Sel.Name == "Wait" {
+				waits = append(waits, call)
+			}
+		}
+		nOK := 0
+		for _, b := range g.Blocks {
+			r := an.ReturnOf(b)
+			if r == nil || len(r.Results) != 3 {
+				continue
+			}
+			if len(waits) != 1 || !g.NodeBefore(waits[0].Expr, r) {
+				waitOK = false
+			}
+			if fn.Canon(r.Results[2]) == "nil" {
+				nOK++
+				retOK = fn.ObjOf(r.Results[0]) == resObj
+			}
+		}
+		c.Check(res.OK() && retOK && nOK == 1 && waitOK, "R10", "func=doMulti:outcome", app.Pos(), fmt.Sprintf("set failed ⇔ its error is offered to the once-recorder; set succeeded ⇔ all its results are appended to the slice that the only success return hands back (=%v), every return after workers.Wait() (=%v): %s", retOK, waitOK, res.Summary()), res.Rows)
+	}
+	// the recorded error wins
+	var errObj types.Object
+	for _, b := range g.Blocks {
+		if r := an.ReturnOf(b); r != nil && len(r.Results) == 3 && fn.Canon(r.Results[2]) != "nil" {
+			errObj = fn.ObjOf(r.Results[2])
+		}
+	}
+	if errObj == nil {
+		c.Viol("R10", "func=doMulti:error", fn.Pos(), "no return hands back the recorded error")
+		return
+	}
+	var okRets []an.Loc
+	for _, b := range g.Blocks {
+		if r := an.ReturnOf(b); r != nil && len(r.Results) == 3 && fn.Canon(r.Results[2]) == "nil" {
+			okRets = append(okRets, g.Locate(r))
+		}
+	}
+	t := an.Table{G: g, From: g.EntryLoc(), MayOnly: true, Atoms: []an.Atom{{Name: "err", Values: []string{"T", "F"}}},
+		Binder: &an.Binder{Fn: fn, Eq: map[string]string{errObj.Name() + "|nil": "noerr"}}, Targets: okRets,
+		Want: func(r an.Row, _ int) an.Tri {
+			if r["noerr"] == "F" {
+				return an.F
+			}
+			return an.U
+		}}
+	t.Atoms = []an.Atom{{Name: "noerr", Values: []string{"T", "F"}}}
+	res := t.Run()
+	c.Check(res.OK(), "R10", "func=doMulti:error", fn.Pos(), "with a recorded error no success return is reachable: "+res.Summary(), res.Rows)
 }
 
 // c11Trackers (R9): the result trackers' success / failure / inclusion predicates, as frozen canonical forms and tables.
